@@ -1,6 +1,7 @@
 (* Small pure pieces of ngo/normalize.py shared by the Normalize model and by the semantic link proofs. *)
 From Coq Require Import List String ZArith Bool.
-From NGO Require Import Syntax.Ast Gen.Tables.
+From NGO Require Import Syntax.Ast.
+From NGO Require Export Gen.Tables.
 Import ListNotations.
 Open Scope list_scope.
 
@@ -19,27 +20,8 @@ Definition split_cmp_lit (sg: sign) (t: term) (gs: list guard) : list lit :=
 Definition normalize_operators_condition (cs: list lit) : list lit :=
   flat_map (fun c => match c with Lit sg (ACmp t gs) => split_cmp_lit sg t gs | _ => [c] end) cs.
 
-(* normalize.py:166-193 remove_unecessary_bounds.replace on the two guards of a body aggregate *)
-Definition is_sym (t: term) (s: sym) := match t with TSym s' => sym_eqb s s' | _ => false end.
-Definition drop_left_guard (g: option guard) : option guard :=
-  match g with
-  | Some (o, TSym s) =>
-      if (cmp_eqb o CLe && sym_eqb s SInf) || (cmp_eqb o CGe && sym_eqb s SSup) then None else g
-  | _ => g
-  end.
-Definition drop_right_guard (g: option guard) : option guard :=
-  match g with
-  | Some (o, TSym s) =>
-      if (cmp_eqb o CLe && sym_eqb s SSup) || (cmp_eqb o CGe && sym_eqb s SInf) then None else g
-  | _ => g
-  end.
-Definition normalize_guards (lg rg: option guard) : option guard * option guard :=
-  let lg := drop_left_guard lg in
-  let rg := drop_right_guard rg in
-  match lg, rg with
-  | None, Some (o, t) => (Some (rhs2lhs_comparison o, t), None)
-  | _, _ => (lg, rg)
-  end.
+(* normalize.py:166-193 remove_unecessary_bounds.replace: drop_left_guard, drop_right_guard and normalize_guards are
+   *generated from the source* (Gen/Tables.v) and re-exported here *)
 
 (* normalize.py:94-101 _convert_count_to_sum *)
 Definition convert_count_elems (es: list belem) : list belem :=
